@@ -29,6 +29,32 @@ class RenderDriver(Driver):
         raise NotImplementedError
 
     def classify(self, doc, out, mismatch, meta):
+        return self.engine_fault(doc, out)
+
+    _boolmon = False
+
+    def engine_fault(self, doc, out=None, ndigits=3):
+        """Re-run the conversion with the C13 pathop monitor attached: if a boolean operation
+        made while converting this very document is wrong and the same wrong answer is
+        reproduced by a direct skia-pathops call from the harness, the mismatch is the engine's."""
+        from picomon.monitors import boolmon
+
+        if not RenderDriver._boolmon:
+            boolmon.STATE["judge"] = False
+            boolmon.install()
+            RenderDriver._boolmon = True
+        saved = events.drain()
+        boolmon.STATE["judge"] = True
+        boolmon.STATE["n"] = 0
+        boolmon.STATE["cap"] = 400
+        try:
+            conv.convert(doc, ndigits=ndigits)
+        finally:
+            boolmon.STATE["judge"] = False
+        evs = events.drain()
+        events.LOG.extend(saved)
+        if any(ev.get("mech") == "skia-engine-wrong-result" for ev in evs):
+            return "skia-engine-wrong-result"
         return None
 
     def is_nontrivial(self, st, feats, meta):
